@@ -37,22 +37,25 @@ func main() {
 	if len(os.Args) < 2 {
 		usage()
 	}
+	code := 2
 	switch os.Args[1] {
 	case "check":
-		os.Exit(cmdCheck(os.Args[2:]))
+		code = cmdCheck(os.Args[2:])
 	case "run":
-		os.Exit(cmdRun(os.Args[2:]))
+		code = cmdRun(os.Args[2:])
 	case "replay":
-		os.Exit(cmdReplay(os.Args[2:]))
+		code = cmdReplay(os.Args[2:])
 	case "externals":
-		os.Exit(cmdExternals())
+		code = cmdExternals()
 	case "solverdiff":
-		os.Exit(cmdSolverDiff(os.Args[2:]))
+		code = cmdSolverDiff(os.Args[2:])
 	case "selftest":
-		os.Exit(cmdSelftest(os.Args[2:]))
+		code = cmdSelftest(os.Args[2:])
 	default:
 		usage()
 	}
+	cleanup()
+	os.Exit(code)
 }
 
 func usage() {
@@ -88,15 +91,47 @@ func harnessFiles(native bool) map[string]string {
 		}
 		m["zz_verif_"+n] = filepath.Join(harnessDir, n)
 	}
+	if auto != nil {
+		m["zz_verif_auto_gen.go"] = auto.Path
+	}
 	return m
 }
 
 func fatal(err error) {
 	fmt.Fprintln(os.Stderr, "gosx:", err)
+	cleanup()
 	os.Exit(2)
 }
 
+var (
+	runDir string
+	auto   *autoInfo
+)
+
+// setupRun creates the scratch directory of this invocation and generates
+// the auto-harness file from /repo's current method sets.
+func setupRun() {
+	runDir = filepath.Join(verifDir, ".work", fmt.Sprintf("%d", os.Getpid()))
+	if err := os.MkdirAll(runDir, 0o755); err != nil {
+		fatal(err)
+	}
+	a, err := generateAuto(runDir)
+	if err != nil {
+		fatal(err)
+	}
+	auto = a
+}
+
+func cleanup() {
+	if runDir != "" {
+		os.RemoveAll(runDir)
+	}
+}
+
 func loadEngine() *symx.Engine {
+	if runDir == "" {
+		setupRun()
+	}
 	eng, err := symx.Load(repoDir, harnessFiles(false), false)
 	if err != nil {
 		fatal(err)
@@ -219,9 +254,10 @@ type replayReport struct {
 }
 
 func workDir() string {
-	d := filepath.Join(verifDir, ".work", fmt.Sprintf("%d", os.Getpid()))
-	os.MkdirAll(d, 0o755)
-	return d
+	if runDir == "" {
+		setupRun()
+	}
+	return runDir
 }
 
 // writeOverlay prepares the go-build overlay that injects the harness (native
@@ -276,7 +312,6 @@ func runGoTest(dir string, in, out string) (string, error) {
 func nativeReplay(results []*symx.CaseResult) (*replayReport, error) {
 	start := time.Now()
 	dir := workDir()
-	defer os.RemoveAll(dir)
 	var cases []replayCase
 	type ref struct {
 		res  *symx.CaseResult
@@ -428,7 +463,7 @@ func cmdReplay(args []string) int {
 	eng := loadEngine()
 	harnessNamesCache = allHarnessNames(eng)
 	dir := workDir()
-	defer os.RemoveAll(dir)
+	defer cleanup()
 	in := filepath.Join(dir, "in.json")
 	out := filepath.Join(dir, "out.json")
 	cases := []replayCase{{Harness: rf.Harness, Params: rf.Params, Witnesses: []symx.Witness{{Vector: rf.Vector, Outcome: rf.Expect}}}}
